@@ -18,7 +18,7 @@ LEVEL = "exploration"
 RULE = ("valid E5 byte strings from the reference encoder with a seeded choice of 1-3 length bytes per item (all legal "
         "choices enumerated for every format code), random nestings, finite float bit patterns and reference-accepted "
         "byte mutants; fed to ANYVALUE, Dynamic(types), the typed classes and every catalogued data item for each of "
-        "its allowed formats, each also decoded into an object that already holds another value; distinct by (target, input bytes); non-trivial when it has a non-minimal length field, "
+        "its allowed formats and to Dynamic([]) (all types), each also decoded into an object that already holds another value; distinct by (target, input bytes); non-trivial when it has a non-minimal length field, "
         "a nesting or >1 element")
 ASSUMPTIONS = ["lib/e5ref.py strict decoder defines which byte strings are valid E5 items and what they denote",
                "format codes the library does not claim to support (2-byte characters 0o22) and non-finite floats are excluded",
